@@ -15,6 +15,7 @@
 #include <cmath>
 #include <string>
 #include <vector>
+#include <thread>
 #include <map>
 #include <set>
 #include <sstream>
@@ -355,6 +356,15 @@ inline uint64_t fnv1a(const void *p, size_t n, uint64_t h = 1469598103934665603U
 
 } // namespace vh
 
-#define VH_MAIN_GLOBALS namespace vh { Out out; }
+// The driver's main() is renamed; the real entry point runs it on the initial thread or, with VH_ON_THREAD set (decided by
+// the check per job), on a freshly created thread: nothing the properties state depends on which thread calls the library.
+namespace vh { inline int run_entry(int (*f)(int, char **), int argc, char **argv) {
+    if (!getenv("VH_ON_THREAD")) return f(argc, argv);
+    int rc = 0; std::thread t([&] { rc = f(argc, argv); }); t.join(); return rc; } }
+#define VH_MAIN_GLOBALS namespace vh { Out out; } \
+    int vh_driver_main(int, char **); \
+    extern "C" int vh_entry(int argc, char **argv) __asm__("main"); \
+    extern "C" int vh_entry(int argc, char **argv) { return vh::run_entry(&vh_driver_main, argc, argv); }
+#define main vh_driver_main
 
 #endif
